@@ -30,6 +30,7 @@ def run(R, job):
             ("child among siblings", core.Tag("span", "a", HTML(m), "b", _add_ws=False), "<span>a" + m + "b</span>"),
             ("repr child", core.Tag("div", ctx.reprobj(m), core.Tag("span", _add_ws=False), _add_ws=False), "<div>" + m + "<span></span></div>"),
             ("attr", core.Tag("div", title=HTML(m)), '<div title="' + m + '"></div>'),
+            ("attr via consolidate_attrs", core.Tag("div", core.consolidate_attrs(title=HTML(m))[0]), '<div title="' + m + '"></div>'),
             ("script single", core.Tag("script", m), "<script>" + m + "</script>"),
             ("style single", core.Tag("style", m), "<style>" + m + "</style>"),
             ("script multi", core.Tag("script", m, HTML(m), _add_ws=False), "<script>" + m + m + "</script>"),
